@@ -132,8 +132,6 @@ def judge_v3(op, g, sp, out, full):
             out.add("C06", "level %d score bits %s are not a tenth in 0.0..10.0" % (l, s[l]))
         if s[l] != tenth_bits(ks[l]):
             out.add(props[l], "level %d score %s, specification %s" % (l, k if k is not None else s[l], ks[l]))
-            if l < L:
-                out.add("C14", "level %d view score %s, decoding the part alone gives %s" % (l, k, ks[l]))
         if k is not None and l < len(svn_g):
             # severity must be the band of the reported score
             band = _band3(k)
@@ -167,15 +165,17 @@ def judge_v3(op, g, sp, out, full):
         if l >= len(enc) or l >= len(canon):
             continue
         want = canon[l] + "|-"
-        if enc[l] != want:
-            p = "C10" if l == L else "C14"
-            out.add(p, "level %d encoding %s, canonical %s" % (l, _show(enc[l]), _show(want)))
+        if enc[l] != want and l == L:
+            # (a lower-level view's encoding is compared with an independent lower-level decoder: pv, pw)
+            out.add("C10", "level %d encoding %s, canonical %s" % (l, _show(enc[l]), _show(want)))
     if "0" in g.get("se", ""):
         out.add("C10", "String() differs from Encode()")
     if g.get("rt", "1") != "1":
         out.add("C10", "decode(encode(x)) differs from x: %s" % g.get("rt"))
     if "0" in g.get("pv", ""):
         out.add("C14", "view differs from an independent decode of its own encoding: pv=%s" % g.get("pv"))
+    if "0" in g.get("pw", ""):
+        out.add("C14", "view differs from a lower-level decoder applied to the input's tokens of that level: pw=%s" % g.get("pw"))
 
 
 def _tokens(op):
@@ -320,16 +320,5 @@ def judge_v2(op, g, sp, out, full):
         out.add("C10", "decode(encode(x)) differs from x: %s" % g.get("rt"))
     if "0" in g.get("pv", ""):
         out.add("C14", "view differs from an independent decode of its own encoding: pv=%s" % g.get("pv"))
-    # views: the lower-level encodings are prefixes of the canonical input made of the lower groups
-    src = core.unhx(canon).decode("latin-1") if canon else ""
-    toks = src.split("/") if src else []
-    want = ["/".join(toks[:6])]
-    if grp[0] == "1":
-        want.append("/".join(toks[:9]))
-    else:
-        want.append("/".join(toks[:6]))
-    for l in range(min(L, 2)):
-        if l < len(enc):
-            w = core.hx(want[l]) + "|-"
-            if enc[l] != w:
-                out.add("C14", "level %d view encoding %s, part alone %s" % (l, _show(enc[l]), _show(w)))
+    if "0" in g.get("pw", ""):
+        out.add("C14", "view differs from a lower-level decoder applied to the input's tokens of that level: pw=%s" % g.get("pw"))
